@@ -255,3 +255,12 @@ package iavl
 //@   callsite Node).right@1 [left-vanished-right-replaces] removed && newLeftNode == nil && arg0 == node
 //@   callsite Node).left@2 [right-vanished-left-replaces] removed && newRightNode == nil && arg0 == node
 //@   modifies *
+
+// ---------------------------------------------------------------- sqlite_batch.go: leaf eviction at commit (C19: a node handed back to the pool must not be
+// referenced any more — the root of a one-leaf tree is still referenced by tree.root)
+//@ func (*sqliteBatch).saveLeaves(b) (n, err)
+//@   props C19
+//@   nosafety
+//@   opaquecalls
+//@   callsite Tree).returnNode [a-leaf-that-is-the-root-stays] arg0 == tree && arg1 == leaf && tree.heightFilter > 0 && (i != 0 || leaf.nodeKey != tree.root.nodeKey)
+//@   modifies *
